@@ -252,6 +252,16 @@ func genFuzz(g *G, repo string, n int, out io.Writer) {
 	for _, d := range badIriData() {
 		emit("hostile-iri", okProfile, d)
 	}
+	// nesting depth around and far beyond the decoders' limits (encoding/json and yaml.v3 both stop at 10000)
+	for _, d := range []int{5000, 9999, 10001, 100000} {
+		emit("deep-data", okProfile, strings.Repeat("[", d)+strings.Repeat("]", d))
+		emit("deep-data", okProfile, strings.Repeat(`{"@graph":[`, d)+strings.Repeat("]}", d))
+		emit("deep-data", okProfile, strings.Repeat(`{"@id":"http://a","http://p":`, d)+"1"+strings.Repeat("}", d))
+	}
+	for _, d := range []int{2000, 20000} {
+		emit("deep-profile", "profile: "+strings.Repeat("[", d)+strings.Repeat("]", d), okData)
+		emit("deep-profile", "profile: P\nviolation: [v]\nvalidations:\n  v:\n    targetClass: core.T\n    "+strings.Repeat("not: {", d)+"propertyConstraints: {core.name: {minCount: 1}}"+strings.Repeat("}", d)+"\n", okData)
+	}
 	for k, d := range sourceMapHostile() {
 		// a profile that reports the target nodes, so locations are looked up
 		_ = k
